@@ -41,7 +41,7 @@ CHECKS = {
             'generated fault subsets/sites/classes x servlet trees x batching x concurrent callers x owned schedules (+ sampled ProcessServlet runs)'),
     'C09': ('exploration', T_SIM + 'well-formedness predicates over the instrumented Worker.call log, exactly-one-batch membership, exact batch-wait bound in virtual time', SIM_NOTE,
             'generated arrival patterns x batch_size x batch_wait_time x workers x preprocess outcomes x in-worker thread pool x owned schedules'),
-    'C06': ('exploration', T_SIM + 'invariant backlog<=capacity at every scheduling step; exact rejection/waiting rules in virtual time; idle backlog == 0', SIM_NOTE,
+    'C06': ('exploration', T_SIM + 'invariant backlog<=capacity at every scheduling step; exact rejection/waiting rules in virtual time; idle backlog == 0; plain and batching workers; workers returning generated values incl. None/falsy (every call returns the planned value, slot returned)', SIM_NOTE,
             'generated caller scripts (backpressure on/off, short/long timeouts, failures, abandoned streams) x capacity 1-4 x owned schedules'),
     'C07': ('exploration', T_SIM + 'abandoned call = TimeoutError at/after deadline or own reference result; probe requests answered correctly afterwards; gather thread alive; clean exit', SIM_NOTE,
             'timeouts equal to / bracketing the service time, early-closed streams, bounded forced clock advances and line-granular preemption in _server.py'),
